@@ -21,8 +21,8 @@ type Options struct {
 	Stop     func() bool
 	// StopEvery: how often (in executions) Stop is polled; 0 = every 256.
 	StopEvery int64
-	MaxSteps int
-	Delay    bool // delay bounding instead of preemption bounding (see RunConfig.Delay)
+	MaxSteps  int
+	Delay     bool // delay bounding instead of preemption bounding (see RunConfig.Delay)
 }
 
 type Stats struct {
